@@ -165,15 +165,20 @@ def finish(pid, tier, mod, results, t0, seed, extra=None, ground_bad=()):
     rep = replay_batch(pid, [dict(harness=r['harness'], params=r['params'], draws=v['draws']) for r, v in cex])
     srep = replay_batch(pid, [dict(harness=r['harness'], params=r['params'], draws=s) for r, s in samples])
     validated = 0
+    concrete_failures = []
     for (r, s), out in zip(samples, srep):
         if out is True:
             validated += 1
+        elif isinstance(out, dict) and 'error' in out:
+            harness_errors.append('%s: concrete validation of a path witness could not run: %s' % (r['name'], out['error']))
         else:
-            harness_errors.append('%s: symbolic path verdict True but concrete run gives %r for %r' % (r['name'], out, s))
+            # the real code fails the harness's postcondition on an input of the explored space although the symbolic path passed
+            # (behaviour the engine does not see, e.g. dependence on the process's hash seed): a reproduced failure is a violation
+            concrete_failures.append((r, dict(signature=sig_of(out), detail=out, draws=s)))
     kf = known_findings(pid)
     open_kf = [k for k in kf if k.get('status') == 'open']
     violations, known_hits = [], {}
-    for (r, v), out in zip(cex, rep):
+    for (r, v), out in list(zip(cex, rep)) + [((r, v), v['detail']) for r, v in concrete_failures]:
         if out is True:
             harness_errors.append('%s: counterexample %s did not reproduce on the real code: %r' % (r['name'], v['signature'], v['draws']))
             continue
